@@ -733,8 +733,9 @@ fn run_parent(args: &[String]) -> i32 {
             "distinct_batch_completion_orders": distinct(orders),
             "probes_hit": counters,
             "components_real": ["fst-bin app.rs (clap argument parsing)", "fst-bin cmd/map.rs and cmd/set.rs (mode selection, sorted and unsorted paths)", "fst-bin merge.rs (Merger, batcher, Sorters, KvBatch, UnionBatch)", "fst-bin util.rs (ConcatCsv, ConcatLines, mmap_fst)", "the fst library (builders, union, readers, verify)", "filesystem on tmpfs, tempfile, memmap2, csv"],
-            "components_stub": ["std::thread -> shuttle::thread (coroutines on one OS thread; our SimScheduler picks the task at every synchronisation point)", "crossbeam_channel -> /verif/simbin/xchan (bounded MPMC channel on shuttle Mutex+Condvar: rendezvous for capacity 0, disconnect on last drop)"],
+            "components_stub": ["std::thread -> shuttle::thread (coroutines on one OS thread; our SimScheduler picks the task at every synchronisation point)", "crossbeam_channel -> /verif/simbin/xchan (bounded MPMC channel on shuttle Mutex+Condvar: rendezvous for capacity 0, disconnect on last drop)", "std::sync::{atomic, Mutex, RwLock, Condvar, Barrier, Once, mpsc} -> shuttle::sync twins by build-time textual substitution in the included fst-bin sources (no effect on the pinned tree, which uses std::sync::Arc only; makes every atomic load/store of a changed tree a scheduling point)"],
             "worker_processes": nw,
+            "fst_bin_sources_changed_by_instrumentation": env!("BINSIM_INSTRUMENTED_FILES"),
             "known_findings_hit": known_hits,
             "step_budget_per_invocation": crate::world::STEP_BUDGET,
         },
